@@ -59,7 +59,15 @@ def generate(chk):
 
 
 def corpus(chk):
-    return gen.corpus(id)
+    out = []
+    for name, ops in gen.corpus(id):
+        plain = [op for op in ops if rounded_result(op) is None]
+        rnd = [op for op in ops if rounded_result(op) is not None]
+        if plain:
+            out.append((name, plain))
+        if rnd:
+            out.append((name + ":rounded", rnd))
+    return out
 
 
 # ---------------------------------------------------------------------------------------------- types
@@ -244,7 +252,73 @@ def _chunks(name, ops, n):
     return [("%s/%d" % (name, k // n), ops[k:k + n]) for k in range(0, len(ops), n)]
 
 
+def _src_fraction(src, val):
+    """exact value of a source operand: Fraction, or 'inf'/'-inf'/'nan'"""
+    if src in INTS:
+        return Fraction(int(val))
+    if val == "nan":
+        return "nan"
+    return decode(src, val)
+
+
+def rounded_result(op):
+    """for an op whose (floating) target cannot hold the source number exactly: what the code is known to answer —
+    the correctly rounded value, as it appears in the R section; None if the op is exact / not of that kind"""
+    w = op.split()
+    if len(w) == 5 and w[1] in ("val", "vval", "consume", "argv") and w[3] in FLTS:
+        x = _src_fraction(w[2], w[4])
+        if isinstance(x, Fraction):
+            r = round_to(w[3], x)
+            if r not in ("inf", "-inf") and r != x:
+                return "out=%s" % encode(w[3], r, negzero=x < 0 and r == 0)
+        return None
+    if len(w) in (5, 6) and w[1] == "fpoint" and w[2] == "val":
+        outs, inexact = [], False
+        for v in w[4:]:
+            x = _src_fraction(w[3], v)
+            if not isinstance(x, Fraction):
+                outs.append(encode("f", x) if x != "nan" else "nan")
+                continue
+            r = round_to("f", x)
+            if r in ("inf", "-inf"):
+                return None
+            inexact = inexact or r != x
+            negz = (x < 0 or (w[3] in FLTS and bytes.fromhex(v)[-1] & 0x80 != 0)) and r == 0
+            outs.append(encode("f", r, negzero=negz))
+        if inexact:
+            return "x=%s y=%s" % (outs[0], outs[-1])
+        return None
+    if len(w) == 6 and w[1] == "ftext":
+        alts = [a.split(":") for a in w[5].split(",")] if w[5] != "-" else []
+        if alts:
+            k, v = max(alts, key=lambda a: int(a[0]))
+            if v.startswith("~"):
+                return "n=%s out=%s" % (k, v[1:])
+        return None
+    if len(w) == 5 and w[1] == "fpoint" and w[2] == "text":
+        alts = [a.split(":") for a in w[4].split(",")] if w[4] != "-" else []
+        full = [v for k, v in alts if int(k) == len(bytes.fromhex(w[3]))]
+        if full and full[0].startswith("~"):
+            return "x=%s y=%s" % (full[0][1:], full[0][1:])
+        return None
+    return None
+
+
 def scripts(tier, seed, scale=1):
+    """ops whose floating target cannot hold the source exactly (known finding `c_ne_s:rounded`) are kept in scripts of
+    their own, so that they never hide another failure of the same script"""
+    out = []
+    for name, ops in _scripts(tier, seed, scale):
+        plain = [op for op in ops if rounded_result(op) is None]
+        rnd = [op for op in ops if rounded_result(op) is not None]
+        if plain:
+            out.append((name, plain))
+        for k in range(0, len(rnd), 4):
+            out.append(("%s:rounded:%d" % (name, k // 4), rnd[k:k + 4]))
+    return out
+
+
+def _scripts(tier, seed, scale=1):
     out = []
     thorough = tier != "quick"
     # ---- stream 1: exhaustive 8/16-bit sources x all targets, both modes
@@ -429,7 +503,8 @@ def ftext_oracle(tgt, data):
             if x in ("inf", "-inf"):
                 out.append((k, "ovf" if x == "inf" else "-ovf"))
             else:
-                out.append((k, encode(tgt, x, negzero=neg and x == 0)))
+                # `~` = the numeral is not exactly representable: the value is its correctly rounded neighbour
+                out.append((k, ("" if x == (-v if neg else v) else "~") + encode(tgt, x, negzero=neg and x == 0)))
     return out
 
 
@@ -608,6 +683,12 @@ def tally(chk, script, c_lines):
 
 
 def finding_key(script, res):
+    if res.get("kind") == "c_ne_s":
+        want = rounded_result(res.get("op") or "")
+        detail = res.get("detail") or ""
+        code = detail.split("spec allows:")[0]
+        if want is not None and ("dst=ok" in code or "R ok" in code or code.strip().startswith("code: ok")) and (" " + want + " ") in (" " + code.replace("|", " ") + " "):
+            return "c_ne_s:rounded"
     op = (res.get("op") or "").split()
     if len(op) >= 4:
         return "%s:%s:%s>%s" % (res["kind"], op[1], op[2], op[3])
